@@ -92,11 +92,24 @@ func main() {
 // validator by a fully adversarial environment (the harness holds the other
 // three keys).  States are deduplicated by (round-state digest, monitor lock).
 func soloDriver(run *core.Run, cov core.Coverage) {
-	// rounds 0-1 (thorough 0-2) with the wide per-round menus, two further rounds with the narrow menu
+	// pass "deep": four rounds, narrow menus after round 0 (both tiers; completes in a minute or two)
+	soloPass(run, cov, true, "solo", run.Pick(150, 200))
+	if !run.Quick() {
+		// pass "wide": three rounds with the wide menus incl. late votes, then two narrow rounds, time-capped
+		soloPass(run, cov, false, "solo_wide", 420)
+	}
+}
+
+// soloPass: deep = the quick tier's plan (wide menu in round 0 only, pruned frontier).
+func soloPass(run *core.Run, cov core.Coverage, deep bool, tag string, seconds int) {
+	// rounds 0-1 (wide pass 0-2) with the wide per-round menus, two further rounds with the narrow menu
 	// (a lock taken in round 1 or renewed in round 2 must survive the late polka of an earlier round)
-	wideRounds := run.Pick(2, 3)
+	wideRounds := 2
+	if !deep {
+		wideRounds = 3
+	}
 	rounds := wideRounds + 2
-	deadline := time.Now().Add(time.Duration(run.Pick(150, 540)) * time.Second)
+	deadline := time.Now().Add(time.Duration(seconds) * time.Second)
 	type st struct {
 		steps  []consnet.SoloStep
 		lock   string
@@ -112,7 +125,7 @@ func soloDriver(run *core.Run, cov core.Coverage) {
 		var scs []*consnet.Scenario
 		for _, f := range frontier {
 			var scripts [][]consnet.SoloStep
-			narrow := r >= wideRounds || (run.Quick() && r > 0)
+			narrow := r >= wideRounds || (deep && r > 0)
 			switch {
 			case narrow:
 				// narrow menu: from round 2 on the whole narrow menu for states whose lock was taken or renewed in
@@ -130,7 +143,7 @@ func soloDriver(run *core.Run, cov core.Coverage) {
 				continue // wide menus in deeper rounds: only states that hold a lock are expanded (the discipline under test)
 			default:
 				scripts = consnet.SoloRoundScriptsLate(int64(r), r > 0)
-				if run.Quick() {
+				if deep {
 					scripts = consnet.SoloRoundScripts(int64(r), r > 0)
 				}
 			}
@@ -144,7 +157,7 @@ func soloDriver(run *core.Run, cov core.Coverage) {
 		for len(scs) > 0 {
 			if time.Now().After(deadline) {
 				levelDone = false
-				cov["solo_scripts_skipped_by_budget"] = len(scs)
+				cov[tag+"_scripts_skipped_by_budget"] = len(scs)
 				break
 			}
 			k := 256
@@ -153,7 +166,7 @@ func soloDriver(run *core.Run, cov core.Coverage) {
 			}
 			chunk := scs[:k]
 			scs = scs[k:]
-			consnet.RunPool(chunk, consnet.PoolOpts{WorkBase: run.WorkDir() + "/solo"}, func(o consnet.CaseOutcome) {
+			consnet.RunPool(chunk, consnet.PoolOpts{WorkBase: run.WorkDir() + "/" + tag}, func(o consnet.CaseOutcome) {
 				runs++
 				if o.Res == nil {
 					if o.Died && o.PanicLine != "" {
@@ -177,7 +190,7 @@ func soloDriver(run *core.Run, cov core.Coverage) {
 						if strings.HasSuffix(lock, "/") {
 							lock = ""
 						}
-						if o.Sc.Powers[3] == 1 && o.Sc.Powers[2] == 1 && (!run.Quick() || quickFrontier(o.Sc.Solo.Steps)) {
+						if o.Sc.Powers[3] == 1 && o.Sc.Powers[2] == 1 && (!deep || quickFrontier(o.Sc.Solo.Steps)) {
 							next = append(next, st{o.Sc.Solo.Steps, lock, o.Sc.Powers})
 						}
 					}
@@ -188,16 +201,17 @@ func soloDriver(run *core.Run, cov core.Coverage) {
 			break
 		}
 		complete = r + 1
-		cov[fmt.Sprintf("solo_frontier_after_round_%d", r)] = len(next)
+		cov[fmt.Sprintf("%s_frontier_after_round_%d", tag, r)] = len(next)
 		frontier = next
 		if len(frontier) == 0 {
 			break
 		}
 	}
-	cov["solo_scripts_executed"] = runs
-	cov["solo_distinct_states"] = len(seen)
-	cov["solo_rounds_completed"] = complete
-	cov["solo_inputs_processed"] = transitions
+	cov[tag+"_scripts_executed"] = runs
+	cov[tag+"_distinct_states"] = len(seen)
+	cov[tag+"_rounds_completed"] = complete
+	cov[tag+"_rounds_planned"] = rounds
+	cov[tag+"_inputs_processed"] = transitions
 	if s, ok := cov["states"].(int); ok {
 		cov["states"] = s + len(seen)
 	}
